@@ -251,10 +251,27 @@ def rows_of(cat):
     return rows
 
 
-def run_impl(case):
-    cat = build_catalog(case)
-    sub = derive(case, cat)
-    return cat, sub, rows_of(sub)
+class ImplTimeout(Exception):
+    pass
+
+
+def _alarm(signum, frame):
+    raise ImplTimeout()
+
+
+def run_impl(case, limit=30):
+    """Build the catalog and read its rows; a call that does not return within `limit` seconds
+    (the 1/12 regularisation loop is a `while`) raises ImplTimeout."""
+    import signal
+    old = signal.signal(signal.SIGALRM, _alarm)
+    signal.alarm(limit)
+    try:
+        cat = build_catalog(case)
+        sub = derive(case, cat)
+        return cat, sub, rows_of(sub)
+    finally:
+        signal.alarm(0)
+        signal.signal(signal.SIGALRM, old)
 
 
 # --------------------------------------------------------------------------
@@ -337,7 +354,8 @@ def to_coq(case, rows):
         d = case['det']
         det = Some(_arrays(d['data'], d['conv'], None, None, d['mask']))
     labels = [r['label'] for r in rows]
-    return coq((S, ny, nx, [[int(v) for v in row] for row in case['seg']], own, det, labels,
+    full = case['order'] is None      # rows of the complete catalog: label order is checked too
+    return coq((S, ny, nx, [[int(v) for v in row] for row in case['seg']], own, det, full, labels,
                 [crow(r) for r in rows]))
 
 
@@ -479,7 +497,8 @@ def oracle_row(case, r):
 
 def classify(case, r, field, sp):
     """Stable signature of a failing (field, input class)."""
-    if field == 'segment_flux' and case['det'] is not None:
+    if (field == 'segment_flux' and case['det'] is not None and sp['segment_flux'] is not None
+            and not math.isfinite(r['segment_flux']) and not math.isfinite(r['area'])):
         return 'SourceCatalog.segment_flux:detection_cat-with-different-mask'
     if field == 'covariance' and sp['covariance'] is not None and not all(math.isfinite(v) for v in r['covariance']):
         return 'SourceCatalog.covariance:nan-for-collinear-pixels'
@@ -664,8 +683,9 @@ def run(ctx):
         'distinct full inputs')
     ctx.assumptions += [
         'localbkg_width = 0 only (the local background for width > 0 is sigma-clipping numerics, not modelled)',
-        'SegmentationImage.slices/labels (scipy.ndimage.find_objects) are not modelled separately: the tight '
-        'box is computed by the model and compared through bbox_* on every case',
+        'SegmentationImage.slices (scipy.ndimage.find_objects) is not modelled separately: the tight box is '
+        'computed by the model and compared through bbox_* on every case; SegmentationImage.labels is modelled '
+        'by seg_labels (sorted distinct non-zero values) and compared on every complete catalog',
         'covariance entries are compared with the absolute bound 2^-40*(ny^2+nx^2+1) (central moments are '
         'computed by the code in inexact float arithmetic); rows whose determinant is within 2^-30 (relative) '
         'of (1/12)^2 are excluded from the covariance comparison and counted (decision-margin rule)',
@@ -677,8 +697,9 @@ def run(ctx):
         'numpy.linalg numerics; tested in Python against closed forms on the exact covariance (support test)',
         'local background subtraction with localbkg_width > 0: not modelled',
         'third-order central moments: not compared (raw moments to order 3 are compared exactly)',
-        'covariance_regularised_once_partial: termination of the 1/12 loop after one step is proved under the '
-        'hypotheses 0 <= sigx2, 0 <= sigy2, 0 <= det (true for non-negative moment data, not proved here)',
+        'catalog_row_transpose is stated with the four first-occurrence extremum indices erased on both sides: '
+        'with a tied extremum the row-major first occurrence legitimately changes under transposition',
+        'Kron / fluxfrac / windowed / perimeter quantities are outside the property statement and not modelled',
     ]
     n = 260 if ctx.tier == 'quick' else 2400
     rng = ctx.rng
@@ -686,7 +707,13 @@ def run(ctx):
     n_rows = 0
     for i in range(n):
         c = gen_case(rng, small=(i % 3 == 0))
-        cat, sub, rows = run_impl(c)
+        try:
+            cat, sub, rows = run_impl(c)
+        except ImplTimeout:
+            ctx.violation('SourceCatalog:does-not-terminate', 'reading the catalog properties did not return '
+                          'within 30 s on a 9x9 image (the covariance is defined for every source)',
+                          {'case': describe(c), 'cmd': 'bin/check C07 --replay <this file>'})
+            continue
         cases.append(c)
         impl.append(rows)
         n_rows += len(rows)
@@ -788,7 +815,11 @@ def run(ctx):
 def replay(obj):
     r = obj['replay']
     case = undescribe(r['case'])
-    cat, sub, rows = run_impl(case)
+    try:
+        cat, sub, rows = run_impl(case)
+    except ImplTimeout:
+        print('the catalog properties did not return within 30 s: property FAILS on this input')
+        return 1
     rc = 0
     for row in rows:
         bad, sp = oracle_row(case, row)
